@@ -5,6 +5,7 @@ import (
 	"time"
 
 	"github.com/jcmturner/gokrb5/v8/config"
+	"github.com/jcmturner/gokrb5/v8/credentials"
 	"github.com/jcmturner/gokrb5/v8/crypto"
 	"github.com/jcmturner/gokrb5/v8/keytab"
 	"github.com/jcmturner/gokrb5/v8/messages"
@@ -481,4 +482,79 @@ func VH_C20_ClientDiagnostics() {
 		zzverif.Public("client-ticket-error", err)
 		zzverif.Reach("exchanged")
 	}
+}
+
+
+// ---- C15: a client built from a credential cache holds exactly the cache's tickets and keys ----------------
+
+// VH_C15_ClientFromCCache: a parsed credential cache (the model: default principal, a TGT credential, n service
+// credentials with distinct server names, optionally a configuration entry) is handed to NewFromCCache.  The
+// client's TGT session holds the TGT credential's ticket, key and times; its service-ticket cache holds, for
+// every credential, that credential's ticket, key and times under the server's name; configuration entries
+// contribute nothing.  Ticket encodings are codec pairs (the ASN.1 layer is C13's subject).
+func VH_C15_ClientFromCCache() {
+	n := zzverif.Param("creds")
+	cc := new(credentials.CCache)
+	cc.Version = 4
+	cc.DefaultPrincipal.Realm = "R"
+	cc.DefaultPrincipal.PrincipalName = types.NewPrincipalName(1, "u")
+	type model struct {
+		tkt   messages.Ticket
+		key   types.EncryptionKey
+		times [4]time.Time
+		spn   string
+	}
+	mk := func(sn types.PrincipalName) (*credentials.Credential, model) {
+		m := model{tkt: messages.Ticket{TktVNO: 5, Realm: "R", SName: sn, EncPart: types.EncryptedData{EType: 18, KVNO: 1, Cipher: zzverif.Bytes(2)}},
+			key: types.EncryptionKey{KeyType: zzverif.Int32(), KeyValue: zzverif.Bytes(2)}, spn: sn.PrincipalNameString()}
+		for i := range m.times {
+			m.times[i] = zzverif.AnyTime()
+		}
+		b, err := m.tkt.Marshal()
+		zzverif.Assume(err == nil)
+		cr := &credentials.Credential{Key: m.key, AuthTime: m.times[0], StartTime: m.times[1], EndTime: m.times[2], RenewTill: m.times[3], Ticket: b}
+		cr.Client.Realm, cr.Client.PrincipalName = "R", cc.DefaultPrincipal.PrincipalName
+		cr.Server.Realm, cr.Server.PrincipalName = "R", sn
+		return cr, m
+	}
+	if zzverif.Param("conf") == 1 {
+		// a configuration entry (its "ticket" is not a ticket at all)
+		cf := &credentials.Credential{Ticket: []byte{1, 2, 3}}
+		cf.Server.Realm, cf.Server.PrincipalName = "X-CACHECONF:", types.NewPrincipalName(0, "krb5_ccache_conf_data/fast_avail")
+		cc.Credentials = append(cc.Credentials, cf)
+	}
+	var ms []model
+	for i := 0; i < n; i++ {
+		cr, m := mk(types.NewPrincipalName(2, "svc"+string(rune('a'+i))+"/h"))
+		cc.Credentials = append(cc.Credentials, cr)
+		ms = append(ms, m)
+	}
+	tgtCred, tgt := mk(types.PrincipalName{NameType: 2, NameString: []string{"krbtgt", "R"}})
+	cc.Credentials = append(cc.Credentials, tgtCred)
+	ms = append(ms, tgt)
+
+	cl, err := NewFromCCache(cc, vhConfig())
+
+	zzverif.Assert("client-built", err == nil && cl != nil)
+	if err != nil {
+		return
+	}
+	s, ok := cl.sessions.get("R")
+	zzverif.Assert("tgt-session-for-the-default-realm", ok)
+	if ok {
+		zzverif.Assert("session-holds-the-tgt-credential", zzverif.All(zzverif.EqBytes(s.tgt.EncPart.Cipher, tgt.tkt.EncPart.Cipher), s.sessionKey.KeyType == tgt.key.KeyType,
+			zzverif.EqBytes(s.sessionKey.KeyValue, tgt.key.KeyValue), s.authTime.Equal(tgt.times[0]), s.endTime.Equal(tgt.times[2]), s.renewTill.Equal(tgt.times[3])))
+	}
+	for _, m := range ms {
+		e, ok := cl.cache.getEntry(m.spn)
+		zzverif.Assert("every-credential-is-in-the-ticket-cache", ok)
+		if ok {
+			zzverif.Assert("cache-entry-holds-the-credentials-ticket-key-and-times", zzverif.All(zzverif.EqBytes(e.Ticket.EncPart.Cipher, m.tkt.EncPart.Cipher), e.Ticket.SName.Equal(m.tkt.SName),
+				e.SessionKey.KeyType == m.key.KeyType, zzverif.EqBytes(e.SessionKey.KeyValue, m.key.KeyValue),
+				e.AuthTime.Equal(m.times[0]), e.StartTime.Equal(m.times[1]), e.EndTime.Equal(m.times[2]), e.RenewTill.Equal(m.times[3])))
+		}
+	}
+	zzverif.Assert("nothing-else-in-the-ticket-cache", len(cl.cache.Entries) == len(ms))
+	zzverif.Assert("identity-is-the-default-principal", cl.Credentials.UserName() == "u" && cl.Credentials.Domain() == "R")
+	zzverif.Reach("checked")
 }
